@@ -11,7 +11,7 @@ use crate::util::{self, Tape};
 use serde_json::json;
 
 fn report(property: &str, v: Violation) {
-    if v.message.starts_with("SKIP:") {
+    if v.message.starts_with("SKIP:") || crate::engine::is_timeout(&v.message) {
         // the check declined the case (outcome left to the implementation)
         return;
     }
